@@ -34,6 +34,15 @@ def arr(l, shape, dtype=np.float64):
 
 
 def area(spec, name):
+    if spec.get("from"):       # an area that is itself a slice (of a slice ...) of a bigger area: big[r0:r1, c0:c1][...]
+        big = spec["from"]["big"]
+        h, w = big["shape"]
+        a = AreaDefinition(name, name, name, big["proj"], w, h, tuple(big["extent"]))
+        for (r0, r1), (c0, c1) in spec["from"]["steps"]:
+            a = a[r0:r1, c0:c1]
+        if list(a.shape) != list(spec["shape"]):
+            raise ValueError("sliced area has shape %s, expected %s" % (a.shape, spec["shape"]))
+        return a
     h, w = spec["shape"]
     return AreaDefinition(name, name, name, spec["proj"], w, h, tuple(spec["extent"]))
 
